@@ -182,9 +182,9 @@ theorem bindParams_frame (ps : List String) (vs : List Val) (kwn : List String) 
     (h : bindParams ps vs kwn kvs env = .ok env2) : ∀ y, y ∉ ps → env2 y = env y := by
   intro y hy
   unfold bindParams at h
-  by_cases hd : ps.eraseDups.length ≠ ps.length
+  rcases (Bool.eq_false_or_eq_true (distinctS ps)).symm with hd | hd
   · simp [hd] at h
-  · simp only [hd, if_false] at h
+  · simp only [hd, Bool.not_true, Bool.false_eq_true, if_false] at h
     cases h1 : bindPos env ps vs with
     | error e => simp [h1, bind, Except.bind] at h
     | ok r1 =>
